@@ -11,4 +11,4 @@ Extraction "uf_model.ml"
   N.add N.mul N.div N.modulo N.eqb N.ltb N.leb N.of_nat N.to_nat N.testbit
   crc_compute read_frame write_frame representable
   hc_new hc_send hc_receive hc_handle_frame hc_step hc_flush hc_send_buffer_size hc_is_send_pending set_credit
-  src_new src_notify_frame_sent src_step eval_tcp_throughput f_bits.
+  receiver_held src_new src_notify_frame_sent src_step eval_tcp_throughput f_bits.
